@@ -13,5 +13,6 @@ func TestVerifSim(t *testing.T) {
 		"C12": verifEngineC,
 		"C13": verifEngineC,
 		"C14": verifEngineC14,
+		"C15": verifEngineC15,
 	})
 }
